@@ -135,6 +135,13 @@ func scanGenBank(input []byte) ([]seqio.GenBank, bool) {
 	for sc.Scan() {
 		out = append(out, sc.Value().(seqio.GenBank))
 	}
+	// a scanner that has stopped stays stopped: asking again yields no further
+	// record, and what is reported is its verdict after having been asked again
+	for k := 0; k < 2; k++ {
+		if sc.Scan() {
+			out = append(out, sc.Value().(seqio.GenBank))
+		}
+	}
 	return out, sc.Err() == nil
 }
 
